@@ -30,7 +30,9 @@ TECHNIQUE = (
     "Release, Abort) followed by further frames and cut at every single position, with a model-free 'nothing dispatched after close()' "
     "oracle on the bare connection and, through a tap on the token manager, on the real Context; end-to-end scenarios with block-wise "
     "exchanges (Block2 first block, 2.31 Continue) cut off by the connection end, responses/requests that come too late, chunks delivered "
-    "back to back or with loop iterations in between, and requests addressed to the remote of the ended connection"
+    "back to back or with loop iterations in between, and requests addressed to the remote of the ended connection; every third fake transport "
+    "models a peer that does not drain the write buffer, where writes issued after close() still reach the wire (Abort must be the last and only one; "
+    "signalling messages with several unknown critical options are swept)"
 )
 LEVEL_TEXT = (
     "Held on every generated stream and chunking: all 2^(n-1) chunkings of every enumerated short stream "
@@ -57,7 +59,8 @@ ASSUMPTIONS = [
     "a stream transport delivers nothing after close(): once the endpoint has called close() on its transport - whatever made it do so - nothing that follows in the stream may be handed to the token manager, else the dispatched set depends on where the stream was cut; a Pong written after close() is dropped by asyncio and only counted",
     "a request handed to a connection whose transport is closing or closed (next block of a block-wise exchange, request addressed to the stale remote) must fail with aiocoap.error.NetworkError within bounded time; pending requests after the endpoint's OWN Abort are only counted (the statement names Release/Abort from the peer)",
     "signalling option numbers live in their own per-code space (RFC 8323 5.2): every odd number is an unknown critical option in 7.01-7.05 (known ones are 2 and 4), every even number must be ignored whatever its value",
-    "asyncio drops writes issued after transport.close() (selector transport with empty buffer) and never calls data_received after close()",
+    "asyncio drops writes issued after transport.close() only when the write buffer was empty at close() (selector transport: write() looks at _conn_lost, which close() raises only then) and never calls data_received after close(); with a buffer the peer has not drained (every third fake transport) they are flushed with it and reach the wire",
+    "'send Abort and close': exactly one Abort, and it is the last frame that reaches the wire on the connection - judged on wire bytes only, so a Pong or second Abort written after close() counts only where a real transport would deliver it (abort/frame-after-abort/<code>, abort/second-abort)",
 ]
 REQUIRED_MONITORS = {
     "quick": {
@@ -66,7 +69,7 @@ REQUIRED_MONITORS = {
         "release_abort_fail_pending": 1000, "e2e_server": 1000, "e2e_outgoing_request": 1000, "no_escape": 500000, "own_csm": 2,
         "no_dispatch_after_close": 400000, "marker_without_payload_abort": 30000, "afterstop_single_cut": 10000, "e2e_dispatch_tap": 4000,
         "blockwise_followup_after_close": 500, "late_response_after_close": 300, "late_request_after_close": 300, "e2e_server_connection_end": 500,
-        "request_to_closed_connection": 1500,
+        "request_to_closed_connection": 1500, "abort_last_on_wire": 100000, "several_critical_sig_options": 1000,
     },
     "thorough": {
         "dispatch_equals_sent": 10000000, "exhaustive_chunkings": 10000000, "outgoing_bytes": 300000, "csm_gate": 1000000, "abort_and_close": 3000000, "abort_under_write_backlog": 600000,
@@ -74,7 +77,7 @@ REQUIRED_MONITORS = {
         "release_abort_fail_pending": 100000, "e2e_server": 100000, "e2e_outgoing_request": 100000, "no_escape": 10000000, "own_csm": 2,
         "no_dispatch_after_close": 8000000, "marker_without_payload_abort": 800000, "afterstop_single_cut": 300000, "e2e_dispatch_tap": 200000,
         "blockwise_followup_after_close": 30000, "late_response_after_close": 20000, "late_request_after_close": 20000, "e2e_server_connection_end": 30000,
-        "request_to_closed_connection": 80000,
+        "request_to_closed_connection": 80000, "abort_last_on_wire": 2000000, "several_critical_sig_options": 1000,
     },
 }
 EXHAUSTIVE = {
@@ -110,19 +113,24 @@ def plan(tier, seed):
 class FakeTransport:
     """What a Protocol sees of asyncio's selector socket transport. Every third transport models a peer that stops
     reading after the first write (the CSM): what is written afterwards stays in the user-space write buffer, which
-    close() flushes before closing and abort() throws away (the two differ in nothing else)."""
+    close() flushes before closing and abort() throws away. As in asyncio (write() only looks at _conn_lost, which
+    close() raises only when the buffer is empty), what is written AFTER close() is appended to a buffer that was not
+    empty at close() and reaches the wire with it; with an empty buffer at close() it is dropped."""
 
     created = 0
+    force_stall = None  # replay: the transport of the replayed case reads as slowly as it did in the run
 
     def __init__(self, loop, proto, peername, sockname):
         FakeTransport.created += 1
-        self.stalls = FakeTransport.created % 3 == 0
+        self.stalls = FakeTransport.created % 3 == 0 if FakeTransport.force_stall is None else FakeTransport.force_stall
         self.stall_at = None  # len(out) from which on bytes are only buffered
         self.discarded = 0
         self.loop = loop
         self.proto = proto
         self.out = bytearray()  # bytes that would have reached the wire
-        self.late = []  # writes after close(): dropped by asyncio
+        self.late = []  # all writes after close() (dropped by asyncio unless the buffer was backed up at close())
+        self.flushing = False  # close() found a non-empty write buffer: later writes still join it
+        self.wire_after_close = 0  # bytes written after close() that reach the wire
         self.closing = False
         self.lost = False
         self.extra = {"peername": peername, "sockname": sockname}
@@ -137,6 +145,9 @@ class FakeTransport:
             raise TypeError("data argument must be a bytes-like object, not %r" % type(data).__name__)
         if self.closing:
             self.late.append(bytes(data))
+            if self.flushing:
+                self.out += data
+                self.wire_after_close += len(data)
             return
         self.out += data
         if self.stalls and self.stall_at is None:
@@ -151,6 +162,7 @@ class FakeTransport:
             return
         self.closing = True
         self.out_at_close = len(self.out)
+        self.flushing = self.stall_at is not None and len(self.out) > self.stall_at
         if self.tm is not None:
             self.mark_at_close = len(self.tm.events)
         self.loop.call_soon(self._call_connection_lost, None)
@@ -160,6 +172,7 @@ class FakeTransport:
             self.discarded = len(self.out) - self.stall_at
             del self.out[self.stall_at :]
         self.close()
+        self.flushing = False
 
     def _call_connection_lost(self, exc):
         if self.lost:
@@ -567,7 +580,7 @@ def judge(env, rig, items, exp, case, chunks, section):
         bad.append(key)
         v = rep.violations.get(key)
         full = v is not None and len(v["witnesses"]) >= rep.MAX_WITNESSES_PER_KEY  # the reporter keeps no further witness
-        rep.violation(key, what, None if full else wit(**kw), case)
+        rep.violation(key, what, None if full else wit(**kw), list(case) + [{"stalls": t.stalls}])
 
     def closer_cause():
         """Mechanism name of the first frame from the model's stop item on that can end the connection."""
@@ -600,6 +613,20 @@ def judge(env, rig, items, exp, case, chunks, section):
     aborts = [f for f in frames if f.code == rt.ABORT]
     pongs = [f.token for f in frames if f.code == rt.PONG]
     others = [f for f in frames if f.code not in (rt.ABORT, rt.PONG)]
+
+    # ---- "send Abort and close": the Abort is the last thing on the wire, and there is one -------------------
+    # Judged on what reaches the wire: what the endpoint writes after close() only gets there when the peer had not
+    # drained the write buffer by then (every third transport); otherwise asyncio drops it and nothing is demanded.
+    if aborts:
+        if t.stall_at is not None:
+            rep.monitor("abort_last_on_wire")
+        tail = frames[frames.index(aborts[0]) + 1 :]
+        if tail:
+            if any(f.code == rt.ABORT for f in tail):
+                viol("abort/second-abort", "a second Abort (7.05) reached the wire after the first one", after_abort=[rt.describe(f) for f in tail[:3]])
+            rest_ = [f for f in tail if f.code != rt.ABORT]
+            if rest_:
+                viol("abort/frame-after-abort/" + rt.code_str(rest_[0].code), "a %s frame reached the wire after the endpoint's Abort (written after close() into a write buffer the peer had not drained)" % rt.code_str(rest_[0].code), after_abort=[rt.describe(f) for f in tail[:3]])
 
     # ---- empty messages must never reach the token manager --------------------------------
     got = dispatched
@@ -929,6 +956,8 @@ def gen_signal(rt, r, code, elective=False, critical=False):
         opts.append((n, v))
     if critical:
         opts.append((r.choice(CRITICAL_NUMBERS), r.choice(VALUE_SHAPES)))
+        if r.random() < 0.35:  # a second one: still one Abort
+            opts.append((r.choice(CRITICAL_NUMBERS), r.choice(VALUE_SHAPES)))
     opts.sort(key=lambda o: o[0])
     payload = b"" if r.random() < 0.6 else b"diagnostic " + gen_text(r, r.randrange(0, 20)).encode("utf8")
     token = gen_token(r) if code in (rt.PING, rt.PONG) or r.random() < 0.2 else b""
@@ -1317,11 +1346,15 @@ class Sections:
                             self.badpos_one(role, cls, pos, v)
 
     # -- signalling option sweep ---------------------------------------------------------------
-    def sigopt_one(self, role, code, number, vi, early=False, only_ci=None):
+    def sigopt_one(self, role, code, number, vi, early=False, double=False, only_ci=None):
         rt = self.rt
         value = VALUE_SHAPES[vi]
         known = {rt.CSM: [(2, b"\x10\x00\x00"), (4, b"")], rt.PING: [], rt.PONG: [], rt.RELEASE: [(4, b"\x05")], rt.ABORT: [(2, b"\x03")]}[code]
-        opts = tuple(sorted(known + [(number, value)], key=lambda o: o[0]))
+        # double: two unknown critical options in one message (the same number twice, or a second number)
+        more = [(number, b""), (number + 2 * (vi % 3), value)] if double else []
+        opts = tuple(sorted(known + [(number, value)] + more, key=lambda o: o[0]))
+        if double:
+            self.rep.monitor("several_critical_sig_options")
         el = None if number & 1 else ("utf8" if is_utf8(value) else "non-utf8")
         token = b"\x77" if code in (rt.PING, rt.PONG) else b""
         sig = frame_item(rt, rt.Frame(code, token, opts, b""), elective=el)
@@ -1330,7 +1363,7 @@ class Sections:
         data = b"".join(it.data for it in items)
         first = 0 if early else 2
         cl = [("whole", [data]), ("single", [data[i : i + 1] for i in range(len(data))]), ("per-frame", chunk_cuts(data, [first, first + len(sig.data)]))]
-        self.run_stream("sigopt", role, items, cl, ["sigopt", role, code, number, vi, early], only_ci)
+        self.run_stream("sigopt", role, items, cl, ["sigopt", role, code, number, vi, early, double], only_ci)
 
     def sigopt(self):
         rt = self.rt
@@ -1344,6 +1377,8 @@ class Sections:
                             self.sigopt_one(role, code, number, vi)
                             if code == rt.CSM:
                                 self.sigopt_one(role, code, number, vi, early=True)
+                            if number & 1:
+                                self.sigopt_one(role, code, number, vi, early=(code == rt.CSM and vi % 2 == 1), double=True)
 
     # -- what follows the frame that ends the connection, cut at every single position ---------------
     AFTERSTOP_CLOSERS = ["bad/" + c for c in BAD_CLASSES if c != "sig-critical-option"] + ["sigcrit/%d" % c for c in (0xE1, 0xE2, 0xE3, 0xE4, 0xE5)] + ["sigunk", "release", "abort", "emptyx"]
@@ -2166,6 +2201,9 @@ class Sections:
 
     # -- replay ---------------------------------------------------------------------------------
     def replay(self, case):
+        if isinstance(case[-1], dict):  # bare-connection cases carry whether their transport's peer read slowly
+            FakeTransport.force_stall = case[-1].get("stalls")
+            case = case[:-1]
         k = case[0]
         if k == "short":
             self.short_one(case[1], case[2], only_mask=case[3])
@@ -2176,7 +2214,7 @@ class Sections:
         elif k == "badpos":
             self.badpos_one(case[1], case[2], case[3], case[4], only_ci=case[5] if len(case) > 5 else None)
         elif k == "sigopt":
-            self.sigopt_one(case[1], case[2], case[3], case[4], early=bool(case[5]), only_ci=case[6] if len(case) > 6 else None)
+            self.sigopt_one(case[1], case[2], case[3], case[4], early=bool(case[5]), double=bool(case[6]), only_ci=case[7] if len(case) > 7 else None)
         elif k == "oversize":
             self.oversize_one(case[1], case[2], case[3], only_ci=case[4] if len(case) > 4 else None)
         elif k == "afterstop":
